@@ -120,9 +120,9 @@ SELECT = {
     'thorough': [
         ('sel', dict(KidMenu={kd('date', 0, 2), kd('sc', 0, 1), kd('grp', 1, 1), kd('string', 1, 1), kd('grp', 0, 2)},
                      AttrMenu={ad('a', 'date'), ad('c', 'boolean', 'dflt'), ad('a', 'int', 'dflt')}),
-         dict(MinKids=0, MaxKids=2, MaxAtts=2, LexCap=2, XsiOn=False, Axes=set(AXES_T), Tests=set(TESTS), MaxSteps=2,
+         dict(MinKids=0, MaxKids=2, MaxAtts=2, LexCap=1, XsiOn=False, Axes=set(AXES_T), Tests=set(TESTS), MaxSteps=2,
               Kinds=XKINDS, RootCfg='R2'),
-         [1, 2, 3, 4, 5, 6, 7, 8, 9, 10]),
+         [1, 2, 3, 4, 5, 6, 7, 8, 9]),
     ],
 }
 
@@ -822,8 +822,7 @@ def replay_history(tid, trip, states, edges, init, lib, version, fails, stats):
                 if d not in prefix:
                     prefix[d] = prefix[s] + ((action, args),)
                     queue.append(d)
-    return len(states) - sum(1 for s in states if states[s]['pc'] == 'idle' and s in prefix) - \
-        sum(1 for s in states if states[s]['pc'] != 'idle')
+    return sum(1 for s in states if states[s]['pc'] == 'idle' and s not in prefix)
 
 
 def walk_worker(job):
@@ -982,6 +981,9 @@ def select_worker(job):
 
 # ---------------------------------------------------------------------------------------
 
+ACTIONS_SEEN: set = set()
+
+
 def fnmap(v) -> dict:
     """a TLA+ function with an integer domain (printed as a tuple when the domain is 1..n)"""
     if isinstance(v, tuple):
@@ -1001,6 +1003,7 @@ def load_walk_graph(dot: str):
     for tid, sts in by_tid.items():
         sub_out = {s: out[s] for s in sts}
         graphs[tid] = (sts, api_edges(sts, sub_out, inits[tid]), inits[tid])
+    ACTIONS_SEEN.update(a for _, _, a, _ in g.edges)
     return graphs, len(g.edges)
 
 
@@ -1086,6 +1089,9 @@ def run(chk: core.Check) -> None:
             record(chk, fails)
         print(f'  walk/{name}: triples={len(vecs)} states={r.distinct} edges={n_edges} tlc={r.wall_s:.1f}s '
               f'replay={time.time() - t0:.1f}s', flush=True)
+    if not only and ACTIONS_SEEN != {'SetSchema', 'Visit', 'Pop', 'ReadAttrs'}:
+        raise tla.MachineryError(f'vacuous SchemaWalk model: actions that fired = {sorted(ACTIONS_SEEN)}')
+    chk.coverage['walk_actions_fired'] = sorted(ACTIONS_SEEN)
     # the pinned code's guard, as a model: TLC must refute the refinement (diagnostic, recorded only)
     if want('coded'):
         wd = os.path.join(chk.scratch, 'walk-coded')
